@@ -23,6 +23,8 @@ const (
 	mwShort
 	mwFailBefore
 	mwFailAfter
+	mwFailCtx // fails before calling next with an error that wraps a context error (its own backend call timed out)
+	mwStamp   // after next: when the result is a map, adds a member named after the request to it, in place
 	numMW
 )
 
@@ -44,7 +46,7 @@ func genC15(t *rapid.T) C15Case {
 	c := C15Case{Mode: Mode(rapid.IntRange(0, 5).Draw(t, "mode"))}
 	n := rapid.IntRange(0, 4).Draw(t, "chainlen")
 	for i := 0; i < n; i++ {
-		c.Chain = append(c.Chain, rapid.SampledFrom([]int{mwPass, mwPass, mwModReq, mwModRes, mwShort, mwFailBefore, mwFailAfter}).Draw(t, "mw"))
+		c.Chain = append(c.Chain, rapid.SampledFrom([]int{mwPass, mwPass, mwModReq, mwModRes, mwShort, mwFailBefore, mwFailAfter, mwFailCtx, mwStamp, mwStamp}).Draw(t, "mw"))
 	}
 	c.Split = rapid.IntRange(0, n).Draw(t, "split")
 	c.NSess = rapid.IntRange(1, 3).Draw(t, "nsess")
@@ -122,6 +124,8 @@ func makeMW(i, kind int, rec *c15Rec) mcp.Middleware {
 				return map[string]interface{}{"short": i}, nil
 			case mwFailBefore:
 				return nil, fmt.Errorf("mw%d-failed", i)
+			case mwFailCtx:
+				return nil, fmt.Errorf("mw%d-failed: %w", i, []error{context.DeadlineExceeded, context.Canceled}[i%2])
 			case mwModReq:
 				if pm, ok := req.Params.(map[string]interface{}); ok {
 					if args, ok := pm["arguments"].(map[string]interface{}); ok {
@@ -140,6 +144,10 @@ func makeMW(i, kind int, rec *c15Rec) mcp.Middleware {
 				if _, isErr := res.(*mcp.JSONRPCError); !isErr && err == nil {
 					return map[string]interface{}{"wrapped": i, "inner": res}, nil
 				}
+			case mwStamp:
+				if m, ok := res.(map[string]interface{}); ok && err == nil {
+					m["stamp:"+id] = i
+				}
 			}
 			return res, err
 		}
@@ -148,38 +156,50 @@ func makeMW(i, kind int, rec *c15Rec) mcp.Middleware {
 
 // c15Predict is the reference interpreter of a chain: the trace and the client-visible outcome.
 // inner is the JSON of the handler's result (nil when the handler answers with a JSON-RPC error of code innerCode).
-func c15Predict(chain []int, hasHandlerMark bool, inner interface{}, innerCode int) (trace []string, result interface{}, errCode int, errMsg string) {
-	var run func(i int) (interface{}, int, string)
-	run = func(i int) (interface{}, int, string) {
+func c15Predict(chain []int, hasHandlerMark bool, inner interface{}, innerCode int, innerIsMap bool, id string) (trace []string, result interface{}, errCode int, errMsg string) {
+	// isMap: the Go value handed back is a map[string]interface{} (what an in-place stamping middleware can write to)
+	var run func(i int) (interface{}, int, string, bool)
+	run = func(i int) (interface{}, int, string, bool) {
 		if i == len(chain) {
 			if hasHandlerMark {
 				trace = append(trace, "handler")
 			}
 			if inner == nil {
-				return nil, innerCode, ""
+				return nil, innerCode, "", false
 			}
-			return inner, 0, ""
+			return inner, 0, "", innerIsMap
 		}
 		trace = append(trace, fmt.Sprintf("m%d-before", i))
 		switch chain[i] {
 		case mwShort:
-			return map[string]interface{}{"short": float64(i)}, 0, ""
-		case mwFailBefore:
-			return nil, -32603, fmt.Sprintf("mw%d-failed", i)
+			return map[string]interface{}{"short": float64(i)}, 0, "", true
+		case mwFailBefore, mwFailCtx:
+			return nil, -32603, fmt.Sprintf("mw%d-failed", i), false
 		}
-		r, code, msg := run(i + 1)
+		r, code, msg, isMap := run(i + 1)
 		trace = append(trace, fmt.Sprintf("m%d-after", i))
 		switch chain[i] {
 		case mwFailAfter:
-			return nil, -32603, fmt.Sprintf("mw%d-failed-after", i)
+			return nil, -32603, fmt.Sprintf("mw%d-failed-after", i), false
 		case mwModRes:
 			if code == 0 {
-				return map[string]interface{}{"wrapped": float64(i), "inner": r}, 0, ""
+				return map[string]interface{}{"wrapped": float64(i), "inner": r}, 0, "", true
+			}
+		case mwStamp:
+			if code == 0 && isMap {
+				cp := map[string]interface{}{}
+				if m, ok := r.(map[string]interface{}); ok {
+					for k, v := range m {
+						cp[k] = v
+					}
+				}
+				cp["stamp:"+id] = float64(i)
+				return cp, 0, "", true
 			}
 		}
-		return r, code, msg
+		return r, code, msg, isMap
 	}
-	r, code, msg := run(0)
+	r, code, msg, _ := run(0)
 	return trace, r, code, msg
 }
 
@@ -338,7 +358,7 @@ func execC15(c C15Case) *Failure {
 			innerCode := 0
 			n := it.nonce
 			for i, k := range c.Chain {
-				if k == mwShort || k == mwFailBefore {
+				if k == mwShort || k == mwFailBefore || k == mwFailCtx {
 					break
 				}
 				if k == mwModReq {
@@ -370,7 +390,7 @@ func execC15(c C15Case) *Failure {
 					inner, innerCode = nil, int(cf)
 				}
 			}
-			wantTrace, wantRes, wantCode, wantMsg := c15Predict(c.Chain, hasMark, inner, innerCode)
+			wantTrace, wantRes, wantCode, wantMsg := c15Predict(c.Chain, hasMark, inner, innerCode, it.req.Method == "ping", it.id)
 			expectedStages += len(wantTrace)
 			rec.mu.Lock()
 			gotTrace := append([]string(nil), rec.traces[it.id]...)
